@@ -149,9 +149,34 @@ def hits_sealed(prot, addr_path, target, name):
 
 
 def snapshot(root):
-  return (pg.to_json(root),
-          tuple((p, id(n), n.is_sealed, n.accessor_writable)
-                for p, n in sym_nodes(root)))
+  flat = []
+
+  def walk(v):
+    flat.append((tuple(v.sym_path.keys), id(v), v.is_sealed,
+                 v.accessor_writable))
+    for _, c in v.sym_items():
+      if isinstance(c, pg.Symbolic):
+        walk(c)
+  walk(root)
+  return (pg.to_json(root), tuple(flat))
+
+
+class Pool:
+  """Hands out a tree prepared by `prepare`; rebuilt after it was touched."""
+
+  def __init__(self, tree, prepare=None):
+    self.tree, self.prepare, self.root = tree, prepare, None
+
+  def get(self):
+    if self.root is None:
+      self.root = build(self.tree)
+      if self.prepare:
+        self.prepare(self.root)
+    return self.root
+
+  def done(self, pristine):
+    if not pristine:
+      self.root = None
 
 
 # --------------------------------------------------------------------------
@@ -451,7 +476,8 @@ def attempt(rec, tree, root, setup_lines, sealed_stack, acc_stack, addr, kind,
            'scope flags leaked after leaving the with-blocks',
            witness(tree, setup_lines, sealed_stack, acc_stack, addr, src,
                    'unchanged') if not scopes_clean else '')
-  return ok
+  # The tree may be reused only if it was provably left alone.
+  return unchanged and (err is None or isinstance(err, WPE)) and ok
 
 
 def all_ops_at(root):
@@ -499,14 +525,15 @@ def drv_sealed_flag(tier, seed):
           rec.case('seal(True)/deep-flag-attr-dict', (tree, prot, p),
                    n.sym_init_args.is_sealed == want,
                    f'sym_init_args.is_sealed at {p!r}', '')
+      pool = Pool(tree, lambda t, p_=prot: resolve(t, (p_, '')).seal(True))
       for name, kind, src, addr, target in ops:
-        root = build(tree)
-        resolve(root, (prot, '')).seal(True)
+        root = pool.get()
         node = resolve(root, addr)
         s = hits_sealed(prot, addr[0], target, name)
         w = node.accessor_writable
-        attempt(rec, tree, root, setup, (), (), addr, kind, name, src, s, w,
-                f'seal@{prot!r}', start_sealed=is_within(addr[0], prot))
+        pool.done(attempt(
+            rec, tree, root, setup, (), (), addr, kind, name, src, s, w,
+            f'seal@{prot!r}', start_sealed=is_within(addr[0], prot)))
       # Unseal: full mutability.
       if tier == 'quick' and prot not in (paths[0], paths[-1], paths[1]):
         continue
@@ -516,12 +543,14 @@ def drv_sealed_flag(tier, seed):
       for p, n in sym_nodes(root):
         rec.case('seal(False)/deep-flag', (tree, prot, p), not n.is_sealed,
                  f'is_sealed at {p!r} still True after seal(False)', '')
+      pool = Pool(tree, lambda t, p_=prot: resolve(
+          t, (p_, '')).seal(True).seal(False))
       for name, kind, src, addr, target in ops:
-        root = build(tree)
-        resolve(root, (prot, '')).seal(True).seal(False)
+        root = pool.get()
         node = resolve(root, addr)
-        attempt(rec, tree, root, setup2, (), (), addr, kind, name, src, False,
-                node.accessor_writable, f'seal+unseal@{prot!r}')
+        pool.done(attempt(
+            rec, tree, root, setup2, (), (), addr, kind, name, src, False,
+            node.accessor_writable, f'seal+unseal@{prot!r}'))
   # Batched rebind through an unsealed ancestor that reaches a sealed node
   # only with a later path: the statement requires the whole tree unchanged.
   for tree, prot, pairs in [
@@ -584,20 +613,22 @@ def drv_sealed_scopes(tier, seed):
       (False, (False, True)), (True, (True, False)), (True, (True, None)),
       (False, (True, None)), (True, (False, None)),
   ]
+  if tier == 'quick':
+    core = core[:2] + core[3:6]
   for tree in TREES:
     proto = build(tree)
     ops = all_ops_at(proto)
     for seal_root, stack in core:
       setup = ['root.seal(True)'] if seal_root else []
       s = effective(stack, seal_root)
+      pool = Pool(tree, (lambda t: t.seal(True)) if seal_root else None)
       for name, kind, src, addr, _ in ops:
-        root = build(tree)
-        if seal_root:
-          root.seal(True)
+        root = pool.get()
         node = resolve(root, addr)
-        attempt(rec, tree, root, setup, stack, (), addr, kind, name, src, s,
-                node.accessor_writable,
-                f'root.sealed={seal_root} as_sealed{stack}')
+        pool.done(attempt(
+            rec, tree, root, setup, stack, (), addr, kind, name, src, s,
+            node.accessor_writable,
+            f'root.sealed={seal_root} as_sealed{stack}'))
   # Full stack enumeration with a reduced op set.
   r = rng(seed, 'c08-scopes')
   depth = 3 if tier == 'quick' else 4
@@ -615,24 +646,25 @@ def drv_sealed_scopes(tier, seed):
     for stack in stacks(depth):
       for sealed_at in (None, '', inner):
         if len(stack) >= 3 and tier == 'quick':
-          sample = r.sample(ops, 12)
+          sample = r.sample(ops, 6)
         else:
           sample = ops
         setup = ([] if sealed_at is None else
                  [f"{node_expr((sealed_at, ''))}.seal(True)"])
+        pool = Pool(tree, None if sealed_at is None else (
+            lambda t, p_=sealed_at: resolve(t, (p_, '')).seal(True)))
         for name, kind, src, addr, target in sample:
-          root = build(tree)
-          if sealed_at is not None:
-            resolve(root, (sealed_at, '')).seal(True)
+          root = pool.get()
           flag = hits_sealed(sealed_at, addr[0], target, name)
           s = effective(stack, flag)
           node = resolve(root, addr)
-          attempt(rec, tree, root, setup, stack, (), addr, kind, name, src, s,
-                  node.accessor_writable,
-                  f'sealed@{sealed_at!r} as_sealed{stack}',
-                  start_sealed=effective(
-                      stack, sealed_at is not None and
-                      is_within(addr[0], sealed_at)))
+          pool.done(attempt(
+              rec, tree, root, setup, stack, (), addr, kind, name, src, s,
+              node.accessor_writable,
+              f'sealed@{sealed_at!r} as_sealed{stack}',
+              start_sealed=effective(
+                  stack, sealed_at is not None and
+                  is_within(addr[0], sealed_at))))
   # Scope does not leak to other threads, and is restored after exceptions.
   d = pg.Dict(a=1)
   res = {}
@@ -685,6 +717,11 @@ def drv_accessor(tier, seed):
   core_stacks = [(), (False,), (True,), (None,), (False, True), (True, False),
                  (False, None), (True, None)]
   all_stacks = core_stacks if tier == 'quick' else stacks(3)
+  quick_combos = {
+      (None, ()), (None, (False,)), (None, (True,)), (False, ()),
+      (False, (True,)), (False, (None,)), (False, (False, True)),
+      (False, (True, None)), (True, (False,)), (True, (False, None)),
+      (True, (True, False))}
   for tree in TREES:
     proto = build(tree)
     node_addrs = [(a, k) for a, k in addresses(proto)]
@@ -696,16 +733,20 @@ def drv_accessor(tier, seed):
           # setting it separately is not a documented configuration.
           continue
         for stack in all_stacks:
+          if tier == 'quick' and (flag, stack) not in quick_combos:
+            continue
           setup = [] if flag is None else [set_acc_src(addr, flag)]
           ops = [(n_, k_, s_, addr) for n_, k_, s_ in OPS[k]]
+          pool = Pool(tree, None if flag is None else (
+              lambda t, a_=addr, f_=flag: resolve(t, a_).set_accessor_writable(
+                  f_)))
           for name, kind, src, at in ops:
-            root = build(tree)
+            root = pool.get()
             node = resolve(root, at)
-            if flag is not None:
-              node.set_accessor_writable(flag)
             w = effective(stack, node.accessor_writable)
-            attempt(rec, tree, root, setup, (), stack, at, kind, name, src,
-                    False, w, f'acc_flag={flag} allow_writable{stack}')
+            pool.done(attempt(
+                rec, tree, root, setup, (), stack, at, kind, name, src,
+                False, w, f'acc_flag={flag} allow_writable{stack}'))
           # rebind through ancestors into this node keeps working.
           if not addr[1]:
             for name, a_addr, src, target in anc_ops:
@@ -746,25 +787,29 @@ def drv_accessor(tier, seed):
   ]
   for tree in TREES:
     proto = build(tree)
-    for seal_root, sstack, flag, astack in combos:
+    for seal_root, sstack, flag, astack in (
+        combos[:4] if tier == 'quick' else combos):
       for addr, k in addresses(proto):
         if addr[1] and flag is not None:
           continue
         setup = (['root.seal(True)'] if seal_root else []) + (
             [] if flag is None else [set_acc_src(addr, flag)])
+        def prep(t, a_=addr, f_=flag, sr_=seal_root):
+          if f_ is not None:
+            resolve(t, a_).set_accessor_writable(f_)
+          if sr_:
+            t.seal(True)
+        pool = Pool(tree, prep)
         for name, kind, src in OPS[k]:
-          root = build(tree)
+          root = pool.get()
           node = resolve(root, addr)
-          if flag is not None:
-            node.set_accessor_writable(flag)
-          if seal_root:
-            root.seal(True)
           s = effective(sstack, seal_root)
           w = effective(astack, node.accessor_writable)
-          attempt(rec, tree, root, setup, sstack, astack, addr, kind, name,
-                  src, s, w,
-                  f'sealed={seal_root} as_sealed{sstack} acc={flag} '
-                  f'allow_writable{astack}')
+          pool.done(attempt(
+              rec, tree, root, setup, sstack, astack, addr, kind, name,
+              src, s, w,
+              f'sealed={seal_root} as_sealed{sstack} acc={flag} '
+              f'allow_writable{astack}'))
   try:
     with pg.allow_writable_accessors(False):
       with pg.allow_writable_accessors(True):
@@ -838,13 +883,13 @@ def _check_history(rec, tree, hist, tag):
   head = [pre_of(tree), f'root = {TREES[tree][0]}'] + lines
   shape = tuple((a, q) for a, q, _ in hist)
   for q, m in sym_nodes(node):
-    rec.case(f'seal({want})/{cls}/is_sealed-flag', (tree, tag, shape, q),
+    rec.case(f'seal({want})/{cls}', (tree, tag, shape, q),
              m.is_sealed == want,
              f'after {lines}: is_sealed at {q!r} is {m.is_sealed}',
              '\n'.join(head + [f"m = {node_expr((q, ''))}",
                                f'assert m.is_sealed == {want}, m.is_sealed']))
     if isinstance(m, pg.Object):
-      rec.case(f'seal({want})/{cls}/is_sealed-flag', (tree, tag, shape, q, 'a'),
+      rec.case(f'seal({want})/{cls}', (tree, tag, shape, q, 'a'),
                m.sym_init_args.is_sealed == want,
                f'after {lines}: sym_init_args.is_sealed at {q!r}',
                '\n'.join(head + [
@@ -867,7 +912,7 @@ def _check_history(rec, tree, hist, tag):
       ok = isinstance(err, WPE) and pg.to_json(root2) == before
     else:
       ok = err is None and pg.to_json(root2) != before
-    rec.case(f'seal({want})/{cls}/behaviour', (tree, tag, shape, q), ok,
+    rec.case(f'seal({want})/{cls}', (tree, tag, shape, q), ok,
              f'after {lines}: {probe} at {q!r}: err={err!r}',
              '\n'.join(head + [
                  f"n = {node_expr((q, ''))}", 'err = None', 'try:',
